@@ -185,13 +185,30 @@ UP_ARRAY = 'std::unique_ptr<double[]>'
 
 
 class OwnHooks(StdHooks):
+    unit_for_records = None  # set by the interpreter: the unit whose record table says which classes have destructors
+
     def __init__(self, world):
         StdHooks.__init__(self)
         self.w = world
         self.cache_region = None
 
     def tracked_record(self, rec):
-        return rec == SUV or rec == UP_ARRAY
+        if rec == SUV or rec == UP_ARRAY:
+            return True
+        # any class of the library with a destructor of its own (scope guards, holders): its locals are destroyed at
+        # scope exit and during unwinding like the vectors
+        return rec in self._dtor_records()
+
+    def _dtor_records(self):
+        if getattr(self, '_dtor_recs', None) is None:
+            self._dtor_recs = set()
+            unit = getattr(self, 'unit_for_records', None)
+            for u in ([unit] if unit is not None else []):
+                for r in u.records:
+                    if r.get('userDtor'):
+                        self._dtor_recs.add(r.get('spec') or r['name'])
+                        self._dtor_recs.add(r['name'])
+        return self._dtor_recs
 
     # -- std::unique_ptr<double[]>: a scoped owner of a raw block (released when the scope is left, also by an exception)
     def external_destroy(self, it, cell):
